@@ -98,6 +98,18 @@ func c02Judge(orig signedTok, mutated []byte) (msg string, class string) {
 	if ev.Verify(orig.Key.Pub) == nil {
 		return fmt.Sprintf("altered token does not verify at first, but VERIFIES after the decoded Evidence was used (SetClaims of its own claims, MarshalJSON, GetInstanceID, encode, Verify with another key)\n  original: %x\n  altered:  %x", orig.Tok, mutated), "verified"
 	}
+	// the relying party decodes from its RECEIVE BUFFER and reads the next
+	// message (here: the genuine token) into that buffer before verifying: the
+	// Evidence still stands for the altered token it decoded
+	if len(mutated) == len(orig.Tok) {
+		buf := append([]byte{}, mutated...)
+		if ev2, err := psatoken.DecodeEvidenceFromCOSE(buf); err == nil {
+			copy(buf, orig.Tok)
+			if ev2.Verify(orig.Key.Pub) == nil {
+				return fmt.Sprintf("the Evidence decoded from the altered token VERIFIES once the caller's receive buffer, from which it was decoded, holds the genuine token\n  original: %x\n  altered:  %x", orig.Tok, mutated), "verified"
+			}
+		}
+	}
 	// the relying party keeps the Evidence BY VALUE (a list of decoded tokens)
 	// and goes on using the object it copied from for the genuine token: the
 	// kept value still stands for the altered one
@@ -161,7 +173,7 @@ func c02Tokens() []struct {
 }
 
 func TestC02_BitFlips(t *testing.T) {
-	st := NewStats("C02", "TestC02_BitFlips", "enumeration: for one signed token per algorithm (7 algorithms, both profiles): every single-bit flip of the whole token (quick: every bit for EdDSA/ES256/PS*, every 8th+offset for ES384/ES512; thorough: every bit, 3 tokens per algorithm) and truncation at every offset; the altered token must fail to decode or fail Verify unless protected/payload/signature content bytes are all unchanged (independent splitter). Positive control: the unaltered token verifies. Non-trivial = the altered token still decodes (verdict comes from signature verification); distinct = (alg, bit | cut)")
+	st := NewStats("C02", "TestC02_BitFlips", "enumeration: for one signed token per algorithm (7 algorithms, both profiles): every single-bit flip of the whole token (quick: every bit for EdDSA/ES256/PS*, every 8th+offset for ES384/ES512; thorough: every bit, 3 tokens per algorithm) and truncation at every offset; the altered token must fail to decode or fail Verify unless protected/payload/signature content bytes are all unchanged (independent splitter). Positive control: the unaltered token verifies. For altered tokens of unchanged length also: decoded from a receive buffer that then takes the genuine token before Verify. Non-trivial = the altered token still decodes (verdict comes from signature verification); distinct = (alg, bit | cut)")
 	st.Exhaustive = true
 	st.Require = []string{"decode-failed", "decoded-verify-failed", "positive-control"}
 	defer st.Flush(t)
